@@ -378,3 +378,98 @@ fn climb_two_ops_modular() {
     let want = if p2 > p1 || (p2 == p1 && right1) { 2 } else { 1 };
     assert!(shape(&*t) == want);
 }
+
+
+fn op_of(k: usize) -> BinaryOp<&'static str> {
+    match k {
+        0 => BinaryOp::Pipe(None), 1 => BinaryOp::Comma, 2 => BinaryOp::Assign, 3 => BinaryOp::Alt, 4 => BinaryOp::Or,
+        5 => BinaryOp::And, 6 => BinaryOp::Cmp(Cmp::Eq), 7 => BinaryOp::Cmp(Cmp::Lt), 8 => BinaryOp::Math(Math::Add),
+        9 => BinaryOp::Math(Math::Mul), _ => BinaryOp::Math(Math::Rem),
+    }
+}
+#[kani::proof]
+#[kani::unwind(12)]
+fn climb_two_ops_enumerated() {
+    let mut a = 0;
+    while a < 11 {
+        let mut b = 0;
+        while b < 11 {
+            let (o1, o2) = (op_of(a), op_of(b));
+            let (p1, p2) = (prec_table(&o1), prec_table(&o2));
+            let right1 = matches!(o1.associativity(), Associativity::Right);
+            let tail = Vec::from([(o1, leaf("$y")), (o2, leaf("$z"))]);
+            let mut it = core::mem::ManuallyDrop::new(tail.into_iter());
+            let t = core::mem::ManuallyDrop::new(leaf("$x").verif_climb(&mut *it));
+            let want = if p2 > p1 || (p2 == p1 && right1) { 2 } else { 1 };
+            assert!(shape(&*t) == want);
+            b += 1;
+        }
+        a += 1;
+    }
+}
+
+
+#[kani::proof]
+#[kani::unwind(8)]
+fn climb_one_concrete_pair() {
+    let (o1, o2) = (op_of(8), op_of(9)); // x + y * z
+    let tail = Vec::from([(o1, leaf("$y")), (o2, leaf("$z"))]);
+    let mut it = core::mem::ManuallyDrop::new(tail.into_iter());
+    let t = core::mem::ManuallyDrop::new(leaf("$x").verif_climb(&mut *it));
+    assert!(shape(&*t) == 2);
+}
+
+
+// abstract expression type for the generic climb: records the bracketing only
+#[derive(Clone, Copy)]
+pub struct Br { lo: u8, hi: u8, left_is_op: bool, right_is_op: bool, leaf: bool }
+impl Expr<BinaryOp<&'static str>> for Br {
+    fn from_op(l: Self, op: BinaryOp<&'static str>, r: Self) -> Self {
+        core::mem::forget(op);
+        Br { lo: l.lo, hi: r.hi, left_is_op: !l.leaf, right_is_op: !r.leaf, leaf: false }
+    }
+}
+fn lf(i: u8) -> Br { Br { lo: i, hi: i, left_is_op: false, right_is_op: false, leaf: true } }
+
+#[kani::proof]
+#[kani::unwind(8)]
+fn climb_generic_two_ops() {
+    let a: usize = kani::any(); let b: usize = kani::any();
+    kani::assume(a < 11 && b < 11);
+    let (o1, o2) = (op_of(a), op_of(b));
+    let (p1, p2) = (prec_table(&o1), prec_table(&o2));
+    let right1 = matches!(o1.associativity(), Associativity::Right);
+    let t = prec_climb::climb(lf(0), [(o1, lf(1)), (o2, lf(2))]);
+    // x o1 (y o2 z)  iff  o2 binds tighter, or equal and right-associative
+    let want_right = p2 > p1 || (p2 == p1 && right1);
+    assert!(t.lo == 0 && t.hi == 2 && !t.leaf);
+    assert!(t.right_is_op == want_right && t.left_is_op == !want_right);
+}
+
+
+// abstract operator: any precedence, any associativity
+#[derive(Clone, Copy)]
+pub struct AbsOp { prec: usize, right: bool }
+impl Op for AbsOp {
+    fn precedence(&self) -> usize { self.prec }
+    fn associativity(&self) -> Associativity { if self.right { Associativity::Right } else { Associativity::Left } }
+}
+impl Expr<AbsOp> for Br {
+    fn from_op(l: Self, _op: AbsOp, r: Self) -> Self {
+        Br { lo: l.lo, hi: r.hi, left_is_op: !l.leaf, right_is_op: !r.leaf, leaf: false }
+    }
+}
+
+#[kani::proof]
+#[kani::unwind(4)]
+fn climb_abstract_two_ops() {
+    let o1 = AbsOp { prec: kani::any(), right: kani::any() };
+    let o2 = AbsOp { prec: kani::any(), right: kani::any() };
+    kani::assume(o1.prec < 16 && o2.prec < 16);
+    // operators of equal precedence share their associativity (true of the real table)
+    kani::assume(o1.prec != o2.prec || o1.right == o2.right);
+    let t = prec_climb::climb(lf(0), [(o1, lf(1)), (o2, lf(2))]);
+    let want_right = o2.prec > o1.prec || (o2.prec == o1.prec && o1.right);
+    assert!(t.lo == 0 && t.hi == 2 && !t.leaf);
+    assert!(t.right_is_op == want_right && t.left_is_op == !want_right);
+}
